@@ -14,6 +14,10 @@ def startSetsFlag : Bool := true
 def wrapperStartThenEndOrError : Bool := true
 def injectionGuarded : Bool := true
 def toolCallOwnRunInfo : Bool := true
+def wrapperOnErrorAlways : Bool := true
+def toolRunInfoUnconditional : Bool := true
+/-- the parameters of the compose level -/
+def cfacts : EinoV.C10.CFacts := ⟨runHasDeferredBlock, deferStartsIfMissing, wrapperOnErrorAlways, toolRunInfoUnconditional⟩
 /-- the parameters of the unit machine -/
 def facts : EinoV.C10.Facts := ⟨appendHandlersCopies, onCopies, startReversed⟩
 end EinoV.Expected.C10
